@@ -915,3 +915,6 @@ func DeadBlocks(fn *ssa.Function) map[*ssa.BasicBlock]bool {
 	deadCache[fn] = dead
 	return dead
 }
+
+// FieldOfAddr is the exported form of fieldOfAddr.
+func FieldOfAddr(v ssa.Value) *types.Var { return fieldOfAddr(v) }
